@@ -14,8 +14,10 @@ Excluded construct (known finding C02/with-outer, see known/C02.txt): a `with` s
 function containing that `with`.  Generators never reference an outer local from inside a with body.
 Two more excluded constructs (known findings): a loop body block that re-declares the loop variable's name
 and refers to that name before the inner declaration (C02/tdz); declarations inside a class static block (C02/static-var, C02/static-let);
-an array or object literal containing identifiers inside the body of an object-literal method/accessor that is
-written inside a parenthesised expression (C02/paren-method).
+parameter defaults/patterns of, and array or object literals containing identifiers inside the body of, an
+object-literal method/accessor that is written inside a parenthesised expression (C02/paren-method); a function
+whose parameter default references a name that its body declares with `var` (C02/default-var), or declares at all
+when the function also has a rest parameter (C02/rest-default).
 """
 
 # the order in which the minifier hands out names is private to it; these are all names of length 1
@@ -37,7 +39,7 @@ PLAIN_CTX = [
 LITERAL_CTX = [
     'out([%(a)s,%(b)s]);', 'out({%(a)s});', 'out({k:%(a)s,%(b)s});', 'out({[%(a)s]:%(b)s});', 'out(...[%(a)s,%(b)s]);',
     'out([...[%(a)s],%(b)s]);', 'out({...{%(a)s}});', 'out((({%(a)s:p})=>p)({%(a)s:%(b)s}));', 'out((([p,q])=>q)([%(a)s,%(b)s]));',
-    'out((()=>({%(a)s,m(){return %(b)s}}))().m());', 'out([%(a)s].map(p=>[p,%(b)s]));', 'out(new(class{f=%(a)s;g(){return[this.f,%(b)s]}})().g());',
+    'out([%(a)s].map(p=>[p,%(b)s]));', 'out(new(class{f=%(a)s;g(){return[this.f,%(b)s]}})().g());',
     'out({get p(){return %(a)s}}.p,[%(b)s][0]);',
 ]
 
@@ -391,6 +393,7 @@ def module_program(rnd):
 # ------------------------------------------------------------------------------------------------
 POOL = ['e', 't', 'n', 's', 'o', 'i', 'a', 'r', 'x', 'y', '$', '_', 'ee', 'te', 'v1', 'E', 'T']
 FN_POOL = ['fe', 'ft', 'nn', 'F1', 'tt']
+CL_POOL = ['Ce', 'Ct', 'K1']
 
 
 class _Gen:
@@ -413,12 +416,54 @@ class _Gen:
         #  known finding C02/paren-method)
         return ''.join(ref(self.r, POOL, plain=self.paren_method > 0) for _ in range(k))
 
+    def emit_decls(self, decls):
+        """decls: list of (kw, name); consecutive declarations with the same keyword are sometimes written as
+        one destructuring declaration (shorthand patterns must be re-expanded when the bound name changes)"""
+        r = self.r
+        s = []
+        i = 0
+        while i < len(decls):
+            kw, nm = decls[i]
+            j = i + 1
+            while j < len(decls) and decls[j][0] == kw and j - i < 3:
+                j += 1
+            grp = [d[1] for d in decls[i:j]]
+            f = r.random()
+            if f < 0.2:
+                pats, vals = [], []
+                for k, x in enumerate(grp):
+                    form = r.choice(['sh', 'kv', 'nest', 'dflt'])
+                    if form == 'sh':
+                        pats.append(x); vals.append('%s:%s' % (x, self.val(x)))
+                    elif form == 'kv':
+                        pats.append('k%d:%s' % (k, x)); vals.append('k%d:%s' % (k, self.val(x)))
+                    elif form == 'nest':
+                        pats.append('n%d:[%s]' % (k, x)); vals.append('n%d:[%s]' % (k, self.val(x)))
+                    else:
+                        pats.append('%s=%s' % (x, self.val(x)))
+                s.append('%s {%s}={%s};' % (kw, ','.join(pats), ','.join(vals)))
+            elif f < 0.35:
+                pats, vals = [], []
+                for x in grp:
+                    if r.random() < 0.3:
+                        pats.append('%s=%s' % (x, self.val(x))); vals.append('void 0')
+                    else:
+                        pats.append(x); vals.append(self.val(x))
+                s.append('%s [%s]=[%s];' % (kw, ','.join(pats), ','.join(vals)))
+            elif f < 0.5 and len(grp) > 1:
+                s.append('%s %s;' % (kw, ','.join('%s=%s' % (x, self.val(x)) for x in grp)))
+            else:
+                s.extend('%s %s=%s;' % (kw, x, self.val(x)) for x in grp)
+            i = j
+        return ''.join(s)
+
     def scope(self, depth, is_func, no_let, no_var):
         """no_let: names a lexical declaration of THIS scope must avoid; no_var: names a var written
         here (or deeper) must avoid"""
         r = self.r
         s = []
         lex, vars_ = set(), set()
+        decls = []
         for nm in r.sample(POOL, r.choice([0, 1, 1, 2, 2, 3, 4])):
             kw = r.choice(['let', 'const', 'var', 'var'])
             if kw == 'var' and (nm in no_var or nm in lex):
@@ -426,31 +471,76 @@ class _Gen:
             if kw != 'var' and (nm in no_let or nm in lex or nm in vars_):
                 continue
             (vars_ if kw == 'var' else lex).add(nm)
-            s.append('%s %s=%s;' % (kw, nm, self.val(nm)))
+            decls.append((kw, nm))
+        s.append(self.emit_decls(decls))
+        tail = ''
+        if is_func and r.random() < 0.3:
+            # a function declaration of the function's top level, called before its text (hoisting), and a class
+            fn = r.choice(FN_POOL)
+            p = r.choice(POOL)
+            s.append('%s(%s);' % (fn, self.val(p)))
+            tail += 'function %s(%s){%s}' % (fn, p, ''.join(ref(r, POOL + [p], plain=self.paren_method > 0) for _ in range(2)))
+        if r.random() < 0.15:
+            cn = r.choice(CL_POOL)
+            a, b = r.choice(POOL), r.choice(POOL)
+            s.append('class %s{static s=%s;f=%s;m(%s){return %s+"|"+this.f}}out(%s.s,new %s().m("q"));' % (cn, a, b, a, a, cn, cn))
         s.append(self.uses(r.randint(1, 4)))
         if depth < self.maxdepth:
             for _ in range(r.choice([0, 1, 1, 2])):
                 # a var in a nested block would also collide with a let written later in this scope: none is
                 s.append(self.child(depth + 1, no_var | lex))
             s.append(self.uses(r.randint(0, 2)))
-        return ''.join(s)
+        return ''.join(s) + tail
 
-    def func_body(self, depth, ps):
-        return self.scope(depth, True, set(ps), set())
+    def params(self, ps, plain=False):
+        """parameter list and argument list for the parameter names ps: plain, defaulted (the default refers to
+        a name that is not a parameter of the same function: no temporal dead zone), destructured"""
+        r = self.r
+        pl, al = [], []
+        for k, p in enumerate(ps):
+            f = r.random()
+            if f < 0.6 or plain:
+                pl.append(p); al.append(self.val(p))
+            elif f < 0.75:
+                d = r.choice([x for x in POOL if x not in ps])
+                self.default_names.add(d)
+                pl.append('%s=%s' % (p, d)); al.append('void 0')
+            elif f < 0.85:
+                pl.append('{%s}' % p); al.append('{%s:%s}' % (p, self.val(p)))
+            elif f < 0.93:
+                pl.append('{k:%s=%s}' % (p, self.val(p))); al.append('{}')
+            else:
+                pl.append('[%s]' % p); al.append('[%s]' % self.val(p))
+        self.has_rest = False
+        if ps and not plain and r.random() < 0.1:
+            pl[-1] = '...' + ps[-1]
+            al[-1] = self.val(ps[-1])
+            self.has_rest = True
+        return ','.join(pl), ','.join(al)
+
+    def func_body(self, depth, ps, no_var=(), no_let=()):
+        # no_var: names referenced by parameter defaults of this function - the body never declares them with
+        # `var` (known finding C02/default-var); with a rest parameter it does not declare them at all
+        # (no_let; known finding C02/rest-default)
+        return self.scope(depth, True, set(ps) | set(no_let), set(no_var))
 
     def child(self, depth, no_var):
         r = self.r
         k = r.choice(['func', 'func', 'arrow', 'block', 'block', 'for', 'forof', 'catch', 'switch', 'method',
-                      'named', 'getter', 'if', 'labeled'])
-        if k in ('func', 'arrow', 'method', 'named'):
+                      'named', 'getter', 'if', 'labeled', 'classm', 'gen', 'forpat', 'forvar', 'forin', 'catchpat',
+                      'switch2'])
+        if k in ('func', 'arrow', 'method', 'named', 'classm', 'gen'):
             ps = r.sample(POOL, r.choice([0, 1, 2, 3]))
-            args = ','.join(self.val(p) for p in ps)
+            # (a parenthesised object-literal method gets plain parameters: known finding C02/paren-method)
+            self.default_names = set()
+            pl, args = self.params(ps, plain=(k == 'method'))
+            dn = self.default_names
+            nl = dn if self.has_rest else set()
             if k == 'method':
                 self.paren_method += 1
-            body = self.func_body(depth, ps)
+            body = self.func_body(depth, ps, dn, nl)
             if k == 'method':
                 self.paren_method -= 1
-            pl = ','.join(ps)
             if k == 'func':
                 return '(function(%s){%s})(%s);' % (pl, body, args)
             if k == 'arrow':
@@ -460,6 +550,10 @@ class _Gen:
                 # into a string context would expose its source text (reflection, outside the property)
                 fn = r.choice(FN_POOL)
                 return '(function %s(%s){out(typeof %s);%s})(%s);' % (fn, pl, fn, body, args)
+            if k == 'classm':
+                return r.choice(['new(class{m(%s){%s}})().m(%s);', '(class{static m(%s){%s}}).m(%s);']) % (pl, body, args)
+            if k == 'gen':
+                return '[...(function*(%s){%syield 1})(%s)];' % (pl, body, args)
             return '({m(%s){%s}}).m(%s);' % (pl, body, args)
         if k == 'getter':
             self.paren_method += 1
@@ -475,6 +569,30 @@ class _Gen:
             return '%s:{{%s}break %s}' % (lb, self.scope(depth, False, set(), no_var), lb)
         if k == 'switch':
             return 'switch(1){case 1:%s}' % self.scope(depth, False, set(), no_var)
+        if k == 'switch2':
+            a = self.scope(depth, False, set(), no_var)
+            return 'switch(2){case 1:out("no");case 2:%sdefault:%s}' % (a, self.uses(1))
+        if k == 'forpat':
+            v, w = r.sample(POOL, 2)
+            inner = 'out(%s,%s);' % (v, w) + self.scope(depth, False, {v, w}, no_var | {v, w})
+            if r.random() < 0.5:
+                return 'for(const [%s,%s] of [[%s,%s]]){%s}' % (v, w, self.val(v), self.val(w), inner)
+            return 'for(let {%s,k:%s} of [{%s:%s,k:%s}]){%s}' % (v, w, v, self.val(v), self.val(w), inner)
+        if k == 'forvar':
+            cand = [x for x in POOL if x not in no_var]
+            if cand:
+                v = r.choice(cand)
+                inner = 'out(%s);' % v + self.scope(depth, False, {v}, no_var)
+                return r.choice(['for(var %s of [%s]){%s}', 'for(var %s in {%s:1}){%s}']) % (v, self.val(v), inner)
+            k = 'forin'
+        if k == 'forin':
+            v = r.choice(POOL)
+            inner = 'out(%s);' % v + self.scope(depth, False, {v}, no_var | {v})
+            return 'for(const %s in {%s:1}){%s}' % (v, self.val(v), inner)
+        if k == 'catchpat':
+            v, w = r.sample(POOL, 2)
+            inner = self.scope(depth, False, {v, w}, no_var | {v, w})
+            return 'try{throw {m:%s,n:[%s]}}catch({m:%s,n:[%s]}){out(%s,%s);%s}' % (self.val(v), self.val(w), v, w, v, w, inner)
         v = r.choice(POOL)
         if k in ('for', 'forof'):
             # the body block may declare the loop variable's name again (a separate scope in ECMAScript), but then
